@@ -630,3 +630,293 @@ def sweep_hooks(name):
 
     return {"after_init": after_init, "before_pull": before_pull, "pre_expand": pre_expand, "after_pull": after_pull,
             "after_recv": after_recv, "at_end": at_end}
+
+
+# ------------------------------------------------------------------ SequOOL: C12 / C07 / C04
+def sequool_hooks():
+    from fractions import Fraction
+    S = {}
+    name = "SequOOL"
+
+    def after_init(ctx):
+        a = ctx["algo"]
+        n = ctx["meta"]["params"]["n"]
+        H = sum(Fraction(1, i) for i in range(1, n + 1))
+        q = Fraction(n) / H
+        S.update(ledger={}, rounds=0, opened={}, opening=None, exhausted=False, search_cells=[], rec_at_exhaustion=None)
+        if abs(float(q) - round(float(q))) > 1e-9:
+            if a.h_max != math.floor(q):
+                ctx["case"].fail("C12", "h_max", f"h_max={a.h_max}, floor(n/H_n)={math.floor(q)}", step="init", algo=name)
+        S["hmax"] = a.h_max
+
+    def pre_expand(ctx, part, parent, newlayer):
+        case = ctx["case"]
+        if ctx.get("algo") is None:
+            return
+        t = S["rounds"]
+        h = parent.get_depth()
+        led = S["ledger"]
+        if S["opening"] is not None and S["opening"]["next"] < len(S["opening"]["kids"] or []):
+            case.fail("C12", "opening-interrupted", "a new cell is opened before all children of the previous one were evaluated", step=t, algo=name)
+        if parent._vid in S["opened"]:
+            case.fail("C12", "opened-twice", f"({h},{parent.get_index()})", step=t, algo=name)
+        if parent.get_children() is not None:
+            case.fail("C12", "opened-internal-cell", f"({h},{parent.get_index()})", step=t, algo=name)
+        if h > S["hmax"]:
+            case.fail("C12", "opened-beyond-hmax", f"depth {h} > h_max {S['hmax']}", step=t, algo=name)
+        if h >= 1:
+            cnt = sum(1 for v, d in S["opened"].items() if d == h)
+            if cnt + 1 > S["hmax"] // h:
+                case.fail("C12", "budget-exceeded", f"{cnt+1} cells of depth {h} opened, floor(h_max/h)={S['hmax']//h}", step=t, algo=name)
+            deeper = [d for d in S["opened"].values() if d > h]
+            if deeper:
+                case.fail("C12", "depth-order", f"opened depth {h} after depth {max(deeper)}", step=t, algo=name)
+            # best unopened cell of this depth by observed reward
+            cand = [n for n in reachable(part.get_root()) if n.get_depth() == h and n._vid not in S["opened"]]
+            rew = lambda n: led[n._vid][0] if led.get(n._vid) else -math.inf
+            if not led.get(parent._vid):
+                case.fail("C12", "opened-unevaluated-cell", f"({h},{parent.get_index()})", step=t, algo=name)
+            elif rew(parent) != max(rew(n) for n in cand):
+                case.fail("C12", "opened-not-best", f"opened reward {rew(parent)!r}, best unopened of depth {h}: {max(rew(n) for n in cand)!r}", step=t, algo=name)
+        else:
+            if S["opened"]:
+                case.fail("C12", "root-not-first", "root opened after other cells", step=t, algo=name)
+        S["opened"][parent._vid] = h
+        S["opening"] = {"cell": parent, "kids": None, "next": 0}
+
+    def after_pull(ctx, t, pt):
+        case, part, a = ctx["case"], ctx["part"], ctx["algo"]
+        nd = node_of_point_m(part, pt)
+        S["pulled"] = nd
+        if nd is None:
+            case.fail("C12", "point-not-a-representative", f"{pt!r}", step=t, algo=name); return
+        root = part.get_root()
+        if nd is root:
+            if not S["exhausted"]:
+                S["exhausted"] = True
+                S["rec_at_exhaustion"] = None
+            return
+        if S["exhausted"]:
+            case.fail("C12", "search-after-exhaustion", "a search cell is handed out after the schedule was exhausted", step=t, algo=name)
+        op = S["opening"]
+        if op is None:
+            case.fail("C12", "cell-without-opening", "handed out a cell although nothing was opened", step=t, algo=name); return
+        if op["kids"] is None:
+            op["kids"] = list(op["cell"].get_children() or [])
+        if op["next"] >= len(op["kids"]) or op["kids"][op["next"]] is not nd:
+            exp = op["kids"][op["next"]] if op["next"] < len(op["kids"]) else None
+            case.fail("C12", "children-order", f"handed out ({nd.get_depth()},{nd.get_index()}), expected child #{op['next']} "
+                      f"{'(' + str(exp.get_depth()) + ',' + str(exp.get_index()) + ')' if exp is not None else 'none left'} of the opened cell", step=t, algo=name)
+        op["next"] += 1
+        if S["ledger"].get(nd._vid) or nd._vid in S["search_cells"]:
+            case.fail("C12", "evaluated-twice", f"({nd.get_depth()},{nd.get_index()})", step=t, algo=name)
+        S["search_cells"].append(nd._vid)
+
+    def after_recv(ctx, t, pt, r):
+        case, part, a = ctx["case"], ctx["part"], ctx["algo"]
+        nd = S.get("pulled")
+        if nd is None:
+            return
+        S["ledger"].setdefault(nd._vid, []).append(r)
+        S["rounds"] += 1
+        total = 0
+        for x in reachable(part.get_root()):
+            exp = S["ledger"].get(x._vid, [])
+            total += len(exp)
+            if list(x.rewards) != exp:
+                case.fail("C04", "reward-list", f"cell ({x.get_depth()},{x.get_index()}) holds {list(x.rewards)[:3]}.., history credits {exp[:3]}..", step=t, algo=name); break
+        if total != S["rounds"]:
+            case.fail("C04", "count-sum", f"evidence sums to {total} after {S['rounds']} rounds", step=t, algo=name)
+        if S["exhausted"]:
+            try:
+                q = a.get_last_point()
+            except Exception as e:
+                q = None
+            if S["rec_at_exhaustion"] is None:
+                S["rec_at_exhaustion"] = q
+            elif q is not S["rec_at_exhaustion"] and q != S["rec_at_exhaustion"]:
+                case.fail("C12", "recommendation-changed-after-exhaustion", f"{S['rec_at_exhaustion']} -> {q}", step=t, algo=name)
+
+    def at_end(ctx):
+        case, part = ctx["case"], ctx["part"]
+        q = ctx.get("last")
+        if q is None:
+            return
+        nd = node_of_point_m(part, q)
+        led = S["ledger"]
+        if nd is None or nd._vid not in S["search_cells"] or not led.get(nd._vid):
+            case.fail("C07", "recommended-unevaluated-cell", f"{q!r} is not an evaluated search cell", step="end", algo=name); return
+        best = max(led[v][0] for v in S["search_cells"] if led.get(v))
+        if led[nd._vid][0] != best:
+            case.fail("C07", "recommendation-not-best", f"recommended reward {led[nd._vid][0]!r}, best evaluated {best!r}", step="end", algo=name)
+
+    return {"after_init": after_init, "pre_expand": pre_expand, "after_pull": after_pull, "after_recv": after_recv, "at_end": at_end}
+
+
+# ------------------------------------------------------------------ POO: C10 / C04 / C07 ; GPO: C09 / C04 / C07
+def poo_hooks():
+    S = {}
+    name = "POO"
+
+    def after_init(ctx):
+        S.update(ev=0, learners=[], rounds=0)
+
+    def check_grid(ctx, t):
+        a, case = ctx["algo"], ctx["case"]
+        p = ctx["meta"]["params"]
+        rhos = []
+        for e in a._log["created"]:
+            kw = e["kw"]
+            if kw.get("nu") != p["numax"]:
+                case.fail("C10", "learner-nu", f"nu={kw.get('nu')!r} != numax", step=t, algo=name)
+            rho = kw.get("rho")
+            rhos.append(rho)
+            if not (0 < rho < p["rhomax"]):
+                case.fail("C10", "learner-rho-range", f"rho={rho!r} not in (0, rhomax)", step=t, algo=name)
+            ex = math.log(rho) / math.log(p["rhomax"])
+            ok = False
+            N = 2
+            while N <= 2 ** 20 and not ok:
+                for i in range(N):
+                    if abs(ex - 2 * N / (2 * i + 1)) <= 1e-9 * ex:
+                        ok = True; break
+                N *= 2
+            if not ok:
+                case.fail("C10", "learner-rho-grid", f"rho={rho!r} is not rhomax^(2N/(2i+1))", step=t, algo=name)
+        if len(set(rhos)) != len(rhos):
+            case.fail("C10", "learner-rho-duplicate", f"{rhos}", step=t, algo=name)
+
+    def after_recv(ctx, t, pt, r):
+        a, case = ctx["algo"], ctx["case"]
+        log = a._log
+        evs = log["events"][S["ev"]:]
+        S["ev"] = len(log["events"])
+        S["rounds"] += 1
+        pulls = [e for e in evs if e[0] == "pull"]
+        recvs = [e for e in evs if e[0] == "recv"]
+        # queries (get_last_point) also pull a learner; the served learner is the LAST pull before the reward
+        if not pulls or len(recvs) != 1:
+            case.fail("C10", "routing", f"round served by {len(pulls)} pull(s), reward delivered {len(recvs)} time(s)", step=t, algo=name); return
+        if recvs[0][1] != pulls[-1][1] or recvs[0][2] != r:
+            case.fail("C10", "routing", f"point proposed by learner {pulls[-1][1]}, reward delivered to learner {recvs[0][1]}", step=t, algo=name)
+        objs = [e["obj"] for e in log["created"]]
+        if list(a.V_algo) != objs or objs[:len(S["learners"])] != S["learners"]:
+            case.fail("C10", "learners-not-append-only", "the learner list was reordered or a learner was dropped", step=t, algo=name)
+        S["learners"] = objs
+        for i, l in enumerate(objs):
+            if a.Times[i] != len(l._rewards):
+                case.fail("C10", "count", f"learner {i}: Times={a.Times[i]} but it received {len(l._rewards)} rewards", step=t, algo=name); break
+            if l._rewards and not rel_close(float(a.V_reward[i]), math.fsum(l._rewards) / len(l._rewards)):
+                case.fail("C10", "score", f"learner {i}: score {a.V_reward[i]!r} != mean of its rewards {math.fsum(l._rewards)/len(l._rewards)!r}", step=t, algo=name); break
+            # C04: the learner's own tree holds exactly its rewards
+            tot = sum(n.visited_times for n in reachable(l.partition.get_root())) if type(l).__name__ != "T_HOO" else l.partition.get_root().visited_times
+            if tot != len(l._rewards):
+                case.fail("C04", "count-sum", f"learner {i}: tree holds {tot} rewards, it was given {len(l._rewards)}", step=t, algo=name); break
+        if sum(len(l._rewards) for l in objs) != S["rounds"]:
+            case.fail("C04", "count-sum", "rewards delivered to learners do not sum to the number of rounds", step=t, algo=name)
+        check_grid(ctx, t)
+
+    def at_end(ctx):
+        a, case = ctx["algo"], ctx["case"]
+        q = ctx.get("last")
+        if q is None or not a.V_reward:
+            return
+        owner = None
+        for i, l in enumerate(a.V_algo):
+            if any(nd.get_cpoint() is q for nd in l.partition._all):
+                owner = i
+        best = max(float(v) for v in a.V_reward)
+        if owner is None or float(a.V_reward[owner]) != best:
+            case.fail("C07", "recommendation-not-best-learner", f"point comes from learner {owner}, scores {list(map(float, a.V_reward))}", step="end", algo=name)
+
+    return {"after_init": after_init, "after_recv": after_recv, "at_end": at_end}
+
+
+def gpo_hooks(name="GPO"):
+    S = {}
+
+    def g_of(a):
+        return getattr(a, "algorithm", a)
+
+    def after_init(ctx):
+        p = ctx["meta"]["params"]
+        n = p["rounds"]
+        Dmax = math.log(2) / math.log(1 / p["rhomax"])
+        pre = 0.5 * Dmax * math.log((n / 2) / math.log(n / 2))
+        S.update(ev=0, rounds=0, skip=abs(pre - round(pre)) < 1e-9, vals=[], last_prop={}, val_pts={})
+        S["N"] = math.ceil(pre)
+        S["half"] = math.floor(n / (2 * S["N"])) if S["N"] > 0 else 0
+        g = g_of(ctx["algo"])
+        if not S["skip"] and (g.N != S["N"] or g.half_phase_length != S["half"]):
+            ctx["case"].fail("C09", "schedule-constants", f"N={g.N}, half={g.half_phase_length}; published formula gives {S['N']}, {S['half']}", step="init", algo=name)
+
+    def after_pull(ctx, t, pt):
+        S["pt"] = pt
+
+    def after_recv(ctx, t, pt, r):
+        a, case = ctx["algo"], ctx["case"]
+        if S["skip"] or S["half"] < 1:
+            return
+        p = ctx["meta"]["params"]
+        log = a._log
+        evs = log["events"][S["ev"]:]
+        S["ev"] = len(log["events"])
+        k = S["rounds"]                 # 0-based index of this round
+        S["rounds"] += 1
+        N, half = S["N"], S["half"]
+        ph, c = divmod(k, 2 * half)
+        created = len(log["created"])
+        if ph < N:
+            if created != ph + 1:
+                case.fail("C09", "learner-count", f"round {k+1}: {created} learners created, schedule says {ph+1} (N={N}, half={half})", step=t, algo=name)
+                return
+            l = log["created"][ph]["obj"]
+            kw = log["created"][ph]["kw"]
+            exp_rho = p["rhomax"] ** (2 * N / (2 * (ph + 1) + 1))
+            if kw.get("nu") != p["numax"] or not rel_close(kw.get("rho"), exp_rho):
+                case.fail("C09", "learner-params", f"learner {ph+1}: nu={kw.get('nu')}, rho={kw.get('rho')!r}; schedule says ({p['numax']}, {exp_rho!r})", step=t, algo=name)
+            if c < half:
+                if [e[:2] for e in evs] != [("pull", ph), ("recv", ph)] or evs[1][2] != r:
+                    case.fail("C09", "explore-routing", f"round {k+1} (phase {ph+1}, exploration): learner events {[(e[0], e[1]) for e in evs]}", step=t, algo=name)
+                S["last_prop"][ph] = pt
+            else:
+                if evs:
+                    case.fail("C09", "validation-routing", f"round {k+1} (phase {ph+1}, validation): reward reached a base learner {[(e[0], e[1]) for e in evs]}", step=t, algo=name)
+                lp = S["last_prop"].get(ph)
+                if lp is not None and list(pt) != list(lp):
+                    case.fail("C09", "validation-point", f"validated point {pt} is not the learner's last proposal {lp}", step=t, algo=name)
+                S["vals"].append((ph, r))
+                if c == 2 * half - 1:
+                    rs = [x for q_, x in S["vals"] if q_ == ph]
+                    g = g_of(a)
+                    if len(g.V_reward) <= ph or not rel_close(float(g.V_reward[ph]), math.fsum(rs) / len(rs)) or len(rs) != half:
+                        case.fail("C09", "validation-score", f"phase {ph+1}: score {g.V_reward[ph] if len(g.V_reward) > ph else None!r}, mean of its {len(rs)} validation rewards {math.fsum(rs)/len(rs)!r}", step=t, algo=name)
+                    S["val_pts"][ph] = list(pt)
+            if len(l._rewards) != min(half, c + 1):
+                case.fail("C04", "learner-evidence", f"learner {ph+1} holds {len(l._rewards)} rewards after {min(half, c+1)} exploration rounds", step=t, algo=name)
+        else:
+            if created != N:
+                case.fail("C09", "learner-count", f"{created} learners after the schedule ended (N={N})", step=t, algo=name)
+            g = g_of(a)
+            best = max(float(v) for v in g.V_reward) if g.V_reward else None
+            idx = [i for i, v in enumerate(g.V_reward) if float(v) == best]
+            if evs or not any(list(pt) == S["val_pts"].get(i) for i in idx):
+                case.fail("C09", "final-point", f"after the last phase pull returned {pt}, best validated {[S['val_pts'].get(i) for i in idx]}", step=t, algo=name)
+        rhos = [e["kw"].get("rho") for e in log["created"]]
+        if len(set(rhos)) != len(rhos):
+            case.fail("C09", "learner-rho-duplicate", f"{rhos}", step=t, algo=name)
+
+    def at_end(ctx):
+        a, case = ctx["algo"], ctx["case"]
+        q = ctx.get("last")
+        if q is None or S["skip"]:
+            return
+        g = g_of(a)
+        if not g.V_reward:
+            return
+        best = max(float(v) for v in g.V_reward)
+        idx = [i for i, v in enumerate(g.V_reward) if float(v) == best]
+        if not any(list(q) == list(g.V_x[i]) for i in idx):
+            case.fail("C07", "recommendation-not-best-validated", f"{q}", step="end", algo=name)
+
+    return {"after_init": after_init, "after_pull": after_pull, "after_recv": after_recv, "at_end": at_end}
